@@ -3,6 +3,7 @@
 From Coq Require Import List NArith ZArith Bool String.
 From ApiFu Require Import Base.Sexp.
 From ApiFu Require Syn.Ast Vld.Ast Val.Values ExeA.ArgData ExeA.ArgArgs ExeA.ArgModel ExeA.ArgSpec ExeA.ArgHyps.
+From ApiFu Require Vld.ValidatorModel Pipe.CostCompose.
 From ApiFu Require Import Pipe.PipelineModel Pipe.PipelineProofs Pipe.Convert Pipe.Compose Pipe.SchemaAgree Pipe.ComposeProofs Pipe.ComposeCheck.
 Import ListNotations.
 Open Scope string_scope.
@@ -137,6 +138,23 @@ Example ex_contract_broken :
   pipeline_model ex_VS [] ex_ES_wrong (n "{ o { i } }") [] [] ex_W = PContractBroken CDocOk /\
   schemas_agree ex_VS ex_ES_wrong = false.
 Proof. vm_compute. auto. Qed.
+
+(** ** the cost rule inside the composition: three fields at default cost 1; the same under a limit
+    of 2 is refused; introspection fields cost nothing; a syntax error stays one *)
+Example ex_cost_schema : Pipe.CostCompose.cost_schema_accepted ex_ES = true.
+Proof. vm_compute. reflexivity. Qed.
+Definition cost_ex (q : string) (r max : Z) : Pipe.CostCompose.cost_front :=
+  Pipe.CostCompose.parse_validate_cost Vld.ValidatorModel.id_order ex_VS [] ex_ES (n q) [] [] r max.
+Example ex_cost_accepted : cost_ex "{ i o { i } }" 1 (-1) = Pipe.CostCompose.CAccepted 3.
+Proof. vm_compute. reflexivity. Qed.
+Example ex_cost_fragment : cost_ex "{ ...F ...F } fragment F on Query { i x }" 2 100 = Pipe.CostCompose.CAccepted 8.
+Proof. vm_compute. reflexivity. Qed.
+Example ex_cost_exceeded : cost_ex "{ i o { i } }" 1 2 = Pipe.CostCompose.CInvalid.
+Proof. vm_compute. reflexivity. Qed.
+Example ex_cost_typename_free : cost_ex "{ __typename i }" 1 (-1) = Pipe.CostCompose.CAccepted 1.
+Proof. vm_compute. reflexivity. Qed.
+Example ex_cost_syntax : cost_ex "{ i o { i }" 1 (-1) = Pipe.CostCompose.CSyntax.
+Proof. vm_compute. reflexivity. Qed.
 
 (** ** round 1: the glue over stage verdicts *)
 Example executed_with_field_error :
